@@ -1,6 +1,6 @@
 """C10 - interaction-list files replay the event stream and round-trip presence."""
 import gen
-from props.base import PropBase, tup
+from props.base import PropBase, bigio_case, with_bigio, tup
 from props.graphcommon import state_case, known_nodes, has_probes, Truth
 from props.suboracles import pairs_of, pres_set, runs_of
 from props.c09 import FMTS
@@ -47,6 +47,7 @@ def replay(rows, directed):
     return pres
 
 
+@with_bigio
 class C10(PropBase):
     id = 'C10'
     obs = {'wint', 'winttext', 'rtint', 'rint', 'has', 'stream'}
@@ -61,10 +62,15 @@ class C10(PropBase):
 
     def exhaustive_cases(self, tier):
         step = 1 if tier == 'thorough' else 3
+        # multi-megabyte interaction lists (implementation side only): size-dependent defects of writer and reader
+        yield bigio_case(('int', False, 320000, False, 'plain'))
         for directed in (False, True):
             for i, h in enumerate(gen.exhaustive_E1(max_len=2)):
                 if i % step == 0:
                     yield dict(directed=directed, removal=True, hist=h, family='int', functional=False, fmt=FMTS[i % len(FMTS)], log=[])
+        yield bigio_case(('int', True, 320000, False, 'fileobj'), ('int', False, 12000, False, 'gz'))
+        if tier == 'thorough':
+            yield bigio_case(('int', True, 500000, False, 'bz2'), ('int', False, 500000, True, 'plain'))
 
     def n_random(self, tier):
         return 500 if tier == 'quick' else 30000
